@@ -86,22 +86,28 @@ ShadowCase(x) ==
 (* taken; third shape: the shadow holds a jump whose target lies BEYOND the target of the branch.  *)
 Shadow2Cases == { <<"warm", k, br, st>> : k \in 0 .. 6, br \in {"beq", "j"}, st \in {Sw("t1", "a1", 48), Sb("t1", "a1", 33), Sh("t1", "a1", 50)} }
                 \cup { <<"far", k, br, Nop>> : k \in 0 .. 3, br \in {"bnez", "blt", "bgeu"} }
+                \* fourth shape: an instruction that raises an error if executed, right behind a taken transfer that
+                \* resolves at once, at every dispatch alignment (k fillers)
+                \cup { <<"trap", k, br, tr>> : k \in 0 .. 4, br \in {"beq", "j", "bnez1"},
+                                              tr \in {I("div", "t2", "t1", "zero", 0, 0), I("rem", "t2", "t1", "t3", 0, 0), I("beq", "zero", "zero", "zero", 0, -1)} }
 Shadow2Case(x) ==
   LET fill == [i \in 1 .. x[2] |-> Nop]   \* fillers must not create register hazards (a renamed WAW is a finding class of its own)
       \* warm: two loads occupy two cores, a dependent add waits for both, a store makes line 128 Modified in one L1
       pre == IF x[1] = "warm" THEN <<Lw("t0", "a0", 0), Lw("t2", "a1", 32), AddI("t2", "t0", "t2"), Sw("t1", "a1", 40)>> \o fill
+             ELSE IF x[1] = "trap" THEN <<Li("t0", 1)>> \o fill
              ELSE <<Lw("t0", "a0", 0)>> \o fill
       nb == Len(pre)                                     \* 0-based index of the branch
       br == CASE x[3] = "beq" -> B("beq", "zero", "zero", nb + 3) [] x[3] = "j" -> J(nb + 3)
               [] x[3] = "bnez" -> B("bnez", "t0", "zero", nb + 2) [] x[3] = "blt" -> B("blt", "t3", "t0", nb + 2)
               [] x[3] = "bgeu" -> B("bgeu", "t0", "t3", nb + 2)
-      p == IF x[1] = "warm"
+              [] x[3] = "bnez1" -> B("bnez", "t0", "zero", nb + 3)
+      p == IF x[1] \in {"warm", "trap"}
            THEN pre \o <<br, x[4], Li("t2", 9), Addi("t3", "t3", 100), Addi("t1", "t3", 1), Nop>>
            \* far: branch -> join (nb+2); shadow jump -> far (nb+4); join: addi; j end; far: li t2,77; end: nop
            ELSE pre \o <<br, J(nb + 4), Addi("t3", "t3", 100), J(nb + 5), Li("t2", 77), Nop, Nop>>
       r0 == Regs0(64, 128, 77, 5, 6, 0)
       fin == Final(p, r0, "ones", 256, 64)
-      sh == IF x[1] = "warm" THEN <<x[4], Li("t2", 9)>> ELSE <<Li("t2", 77)>>
+      sh == IF x[1] \in {"warm", "trap"} THEN <<x[4], Li("t2", 9)>> ELSE <<Li("t2", 77)>>
   IN CaseRec("Shadow2", p, r0, "ones", 256, fin, ShadowFocusRegs(sh) \cup {"t3"}, ShadowFocusAddrs(sh, 64, 128), Tags(p, fin), [taken |-> TRUE, shape |-> x[1]])
 
 (* ------------------------------- RegDep (C04) ------------------------------ *)
